@@ -64,6 +64,9 @@ type LOp struct {
 	Uris    []string `json:"uris,omitempty"`
 	Headers []string `json:"headers,omitempty"`
 
+	// ext add: the endpoint, drawn independently of the name ("" = "ep_"+name as in older replays)
+	Endpoint string `json:"endpoint,omitempty"`
+
 	// remove of a running HTTP listener: client connections the harness holds open across it
 	Conns  string `json:"conns,omitempty"`  // "" none | inflight (POST headers + part of the body sent) | idle (keep-alive connection after a completed request) | silent (connected, nothing sent)
 	NConns int    `json:"nconns,omitempty"` // 1-2
@@ -135,6 +138,9 @@ func genOverlap(t *rapid.T, name string, pred map[string]string, names []string)
 		if o.Kind == "svc" {
 			o.SvcReply = "ok"
 		}
+		if o.Kind == "ext" {
+			o.Endpoint = genEndpoint(t)
+		}
 		if rapid.IntRange(0, 3).Draw(t, "other") == 0 {
 			for _, n := range append(append([]string(nil), names...), name+"-2") {
 				if _, taken := pred[n]; !taken && n != name {
@@ -172,11 +178,13 @@ func genOps(t *rapid.T, n int, pred map[string]string, httpRemovals *int, names 
 		switch what {
 		case "add":
 			op.Op = "add"
-			op.Kind = rapid.SampledFrom([]string{"http", "http", "http", "smb", "ext", "svc"}).Draw(t, "kind")
+			op.Kind = rapid.SampledFrom([]string{"http", "http", "http", "smb", "ext", "ext", "svc"}).Draw(t, "kind")
 			switch op.Kind {
 			case "http":
 				genHTTPAdd(t, &op)
 				genHTTPCfg(t, &op)
+			case "ext":
+				op.Endpoint = genEndpoint(t)
 			case "svc":
 				op.SvcReply = rapid.SampledFrom([]string{"ok", "ok", "error", "silent"}).Draw(t, "svcreply")
 			}
@@ -256,6 +264,9 @@ func genB(t *rapid.T) CaseA {
 				genHTTPAdd(t, &re)
 				genHTTPCfg(t, &re)
 			}
+			if re.Kind == "ext" {
+				re.Endpoint = genEndpoint(t)
+			}
 			ops = append(ops, re)
 			pred[name] = re.Kind
 		}
@@ -329,7 +340,8 @@ type ent struct {
 	active bool
 	secure bool
 	cfg    httpCfg
-	op     LOp // the add that created it (edits resend its read-only fields)
+	op     LOp    // the add that created it (edits resend its read-only fields)
+	ep     string // ext: its endpoint
 }
 
 // ---------------------------------------------------------------------------- world
@@ -439,6 +451,13 @@ func (w *worldA) holdOpen(e *ent, class string, n int) ([]net.Conn, error) {
 	}
 	svcx.Quiesce()
 	return out, nil
+}
+
+func (o LOp) endpoint() string {
+	if o.Endpoint == "" {
+		return "ep_" + o.Name
+	}
+	return realEndpoint(o.Endpoint)
 }
 
 func kindOfListener(l *server.Listener) string {
@@ -688,6 +707,29 @@ func checkA(c CaseA) *core.Violation {
 		}
 		sort.Strings(want)
 		sort.Strings(got)
+		// a listed External listener is actually served: its endpoint is routed and answers; a
+		// route no listed listener uses is gone
+		used := map[string]bool{}
+		for _, l := range ts.Listeners {
+			x, ok := l.Config.(*handlers.External)
+			if !ok {
+				continue
+			}
+			used[x.Config.Endpoint] = true
+			body, _ := agentRequest(0x7a7a7a7a, 1)
+			code, _, found, done := callEndpoint(ts, x.Config.Endpoint, body)
+			switch {
+			case !found:
+				return core.V("listener|external|listed-but-endpoint-not-routed|after-"+after, "after %s: External listener %q is listed (and persisted, and advertised) but its endpoint %q is not routed", after, l.Name, x.Config.Endpoint)
+			case !done || code != 404:
+				return core.V("listener|external|endpoint-does-not-answer|after-"+after, "after %s: a request with an unregistered magic value into endpoint %q of External listener %q: answered=%v status=%d, want 404", after, x.Config.Endpoint, l.Name, done, code)
+			}
+		}
+		for _, e := range ts.Endpoints {
+			if !used[e.Endpoint] {
+				return core.V("listener|external|route-without-listener|after-"+after, "after %s: endpoint %q is still routed although no listed listener uses it", after, e.Endpoint)
+			}
+		}
 		if strings.Join(want, ",") != strings.Join(got, ",") {
 			return core.V("listener|set|differs-from-history|after-"+after, "after %s: ts.Listeners holds {%s}, the history amounts to {%s}", after, strings.Join(got, ","), strings.Join(want, ","))
 		}
@@ -743,7 +785,7 @@ func checkA(c CaseA) *core.Violation {
 		case "smb":
 			a.info["PipeName"] = "pipe_" + op.Name
 		case "ext":
-			a.info["Endpoint"] = "ep_" + op.Name
+			a.info["Endpoint"] = op.endpoint()
 		case "svc":
 			a.info["ClientUser"] = "op"
 			a.info["Host"] = "127.0.0.1"
@@ -797,8 +839,18 @@ func checkA(c CaseA) *core.Violation {
 				return core.V("listener|add|duplicate-name-replaced|"+op.Kind, "step %d: add %s %q while %q exists replaced the running listener", i, op.Kind, op.Name, op.Name)
 			}
 		} else {
+			epTaken := false
+			if op.Kind == "ext" {
+				// an External listener on an endpoint another listed listener already serves: refusing
+				// it (no trace anywhere) and taking it (listed, persisted, announced AND routed) are
+				// both consistent; which one happened is observed
+				epTaken = op.endpoint() == "opext"
+				for _, e := range model {
+					epTaken = epTaken || (e.kind == "ext" && e.ep == op.endpoint())
+				}
+			}
 			switch {
-			case a.lenient:
+			case a.lenient || (epTaken && len(after) == 0):
 			case len(after) == 0 && (op.Kind == "smb" || op.Kind == "ext" || op.Kind == "svc"):
 				return core.V("listener|add|missing|"+op.Kind, "step %d: add %s %q (new name) left no listener of that name", i, op.Kind, op.Name)
 			case len(after) == 0 && op.Kind == "http" && (op.Port == "fresh" || op.Port == "empty"):
@@ -806,6 +858,12 @@ func checkA(c CaseA) *core.Violation {
 			}
 			if len(after) >= 1 {
 				e := &ent{kind: kindOfListener(after[0]), port: port, cfg: cfg, secure: op.Kind == "http" && op.Secure, op: op}
+				if x, ok := after[0].Config.(*handlers.External); ok {
+					e.ep = x.Config.Endpoint
+					if e.ep != op.endpoint() {
+						return core.V("listener|add|ext|wrong-endpoint", "step %d: add ext %q with endpoint %q produced a listener on endpoint %q", i, op.Name, op.endpoint(), e.ep)
+					}
+				}
 				if a.ownBefore != nil {
 					// PortBind "": the kernel chose; find the listening socket that appeared
 					var fresh []string
@@ -886,7 +944,7 @@ func checkA(c CaseA) *core.Violation {
 				info = map[string]string{"Name": op.Name, "Protocol": handlers.AGENT_PIVOT_SMB, "Status": "online", "PipeName": "pipe_" + op.Name}
 				label = "edit-smb"
 			case me.kind == "ext":
-				info = map[string]string{"Name": op.Name, "Protocol": handlers.AGENT_EXTERNAL, "Status": "online", "Endpoint": "ep_" + op.Name}
+				info = map[string]string{"Name": op.Name, "Protocol": handlers.AGENT_EXTERNAL, "Status": "online", "Endpoint": me.ep}
 				label = "edit-ext"
 			default:
 				info = map[string]string{"Name": op.Name, "Protocol": svcKind, "ClientUser": "op", "Host": "127.0.0.1"}
@@ -1080,7 +1138,8 @@ func checkA(c CaseA) *core.Violation {
 func classifyA(c CaseA) core.Class {
 	var cl core.Class
 	pred := map[string]string{}
-	dup, unknown, failed, httpRm, stale, unusual, inflight, overlap, related := 0, 0, 0, 0, 0, 0, 0, 0, 0
+	dup, unknown, failed, httpRm, stale, unusual, inflight, overlap, related, sharedEp := 0, 0, 0, 0, 0, 0, 0, 0, 0, 0
+	predEp := map[string]string{}
 	kinds := map[string]bool{}
 	for _, op := range c.Ops {
 		k, present := pred[op.Name]
@@ -1093,6 +1152,21 @@ func classifyA(c CaseA) core.Class {
 				cl.Labels = append(cl.Labels, "add-duplicate:"+k+"<-"+op.Kind)
 			} else {
 				cl.Labels = append(cl.Labels, "name-class:"+classOfName(c.Base, op.Name))
+				if op.Kind == "ext" {
+					cl.Labels = append(cl.Labels, "ext-endpoint:"+endpointClass(op.Endpoint))
+					if op.endpoint() == "opext" {
+						cl.Labels = append(cl.Labels, "ext-endpoint:shared-with-operator-listener")
+						sharedEp++
+					}
+					for n, ep := range predEp {
+						if n != op.Name && ep == op.endpoint() {
+							cl.Labels = append(cl.Labels, "ext-endpoint:shared-with-another-listener")
+							sharedEp++
+							break
+						}
+					}
+					predEp[op.Name] = op.endpoint()
+				}
 				var others []string
 				for o := range pred {
 					others = append(others, o)
@@ -1175,6 +1249,7 @@ func classifyA(c CaseA) core.Class {
 					}
 				}
 				delete(pred, op.Name)
+				delete(predEp, op.Name)
 			}
 		}
 	}
@@ -1190,7 +1265,7 @@ func classifyA(c CaseA) core.Class {
 		ks = append(ks, k)
 	}
 	sort.Strings(ks)
-	cl.Fingerprint = fmt.Sprintf("dup=%d|unk=%d|fail=%d|httprm=%d|stale=%d|emptyfield=%d|inflightrm=%d|overlap=%d|relatednames=%d|kinds=%s", b(dup), b(unknown), b(failed), b(httpRm), b(stale), b(unusual), b(inflight), b(overlap), b(related), strings.Join(ks, "+"))
+	cl.Fingerprint = fmt.Sprintf("dup=%d|unk=%d|fail=%d|httprm=%d|stale=%d|emptyfield=%d|inflightrm=%d|overlap=%d|relatednames=%d|sharedep=%d|kinds=%s", b(dup), b(unknown), b(failed), b(httpRm), b(stale), b(unusual), b(inflight), b(overlap), b(related), b(sharedEp), strings.Join(ks, "+"))
 	return cl
 }
 
